@@ -59,7 +59,13 @@ func ruleConstIndex(fileScope func(string) bool, ruleID string, min int) func(c 
 					return true
 				}
 				if _, isSlice := t.Underlying().(*types.Slice); !isSlice {
-					return true
+					// a constant index into a STRING panics the same way (`line[1]` on a one-character line)
+					if b, isBasic := t.Underlying().(*types.Basic); !isBasic || b.Info()&types.IsString == 0 {
+						return true
+					}
+					if tv, isC := info.Types[ix.X]; isC && tv.Value != nil {
+						return true // indexing a constant string
+					}
 				}
 				k, isConst := constInt(info, ix.Index)
 				if !isConst {
